@@ -1328,6 +1328,44 @@ class Engine:
             self.store(st, p, ins.ty, v)
         fr.ip += 1
 
+    def op_atomicrmw(self, st, fr, ins, work):
+        p = self.val(st, fr, ins.a[0])
+        v = self.val(st, fr, ins.a[1])
+        ty = ins.ty.resolve()
+        if self.lockmon is not None:
+            ins.flags = ("atomic",)
+            self.lockmon.access(self, st, p, ty.size, True, ins)
+        old = self.load(st, p, ty)
+        op = ins.x
+        if op == "xchg":
+            new = v
+        elif op in ("add", "sub", "and", "or", "xor"):
+            new = self.ibin(st, op, old, v, ty.n)
+        else:
+            raise Inconclusive("atomicrmw %s" % op)
+        self.store(st, p, ty, new)
+        if ins.dest:
+            fr.locals[ins.dest] = old
+        fr.ip += 1
+
+    def op_cmpxchg(self, st, fr, ins, work):
+        p = self.val(st, fr, ins.a[0])
+        cmp_ = self.val(st, fr, ins.a[1])
+        new = self.val(st, fr, ins.a[2])
+        ty = ins.ty.resolve()
+        if self.lockmon is not None:
+            ins.flags = ("atomic",)
+            self.lockmon.access(self, st, p, ty.size, True, ins)
+        old = self.load(st, p, ty)
+        eq = self.icmp(st, "eq", old, cmp_, ty)
+        if not isinstance(eq, int):
+            raise Inconclusive("cmpxchg with symbolic comparison")
+        if eq:
+            self.store(st, p, ty, new)
+        if ins.dest:
+            fr.locals[ins.dest] = [old, eq]
+        fr.ip += 1
+
     def op_gep(self, st, fr, ins, work):
         ops = ins.a
         base = self.val(st, fr, ops[0])
